@@ -54,13 +54,29 @@ def _assigned_names(node):
 
 
 class _Subst(ast.NodeTransformer):
+    """Parameters replaced by the argument expressions.  A `**kw` parameter (key '**kw' -> list of keyword nodes) is expanded
+    where the helper passes it on (`f(x, **kw)`)."""
+
     def __init__(self, mapping):
-        self.mapping = mapping
+        self.mapping = {k: v for k, v in mapping.items() if not k.startswith('**')}
+        self.star = {k[2:]: v for k, v in mapping.items() if k.startswith('**')}
 
     def visit_Name(self, n):
         if n.id in self.mapping and isinstance(n.ctx, ast.Load):
             return copy.deepcopy(self.mapping[n.id])
         return n
+
+    def visit_Call(self, c):
+        self.generic_visit(c)
+        if self.star:
+            kws = []
+            for k in c.keywords:
+                if k.arg is None and isinstance(k.value, ast.Name) and k.value.id in self.star:
+                    kws.extend(copy.deepcopy(self.star[k.value.id]))
+                else:
+                    kws.append(k)
+            c.keywords = kws
+        return c
 
 
 def _fresh_comprehension_vars(node, taken):
@@ -516,8 +532,16 @@ class Inliner(object):
     def _bind(self, hnode, call, recv):
         """(mapping param->expr, prelude statements) or None when the call cannot be bound."""
         a = hnode.args
-        if a.vararg or a.kwarg or a.posonlyargs:
+        if a.vararg or a.posonlyargs:
             return None
+        kwname = a.kwarg.arg if a.kwarg else None
+        if kwname is not None:
+            # `**kw` is supported when the helper only passes it on (every use is `**kw` in a call)
+            uses = [n for n in ast.walk(ast.Module(body=hnode.body, type_ignores=[])) if isinstance(n, ast.Name) and n.id == kwname]
+            passed = [k.value for c in ast.walk(ast.Module(body=hnode.body, type_ignores=[])) if isinstance(c, ast.Call)
+                      for k in c.keywords if k.arg is None and isinstance(k.value, ast.Name) and k.value.id == kwname]
+            if len(uses) != len(passed) or not all(any(u is p_ for p_ in passed) for u in uses):
+                return None
         params = [x.arg for x in a.args]
         defaults = dict(zip(params[len(params) - len(a.defaults):], a.defaults))
         for k, d in zip(a.kwonlyargs, a.kw_defaults):
@@ -538,7 +562,11 @@ class Inliner(object):
             return None
         for n, e in zip(names, pos):
             given[n] = e
+        extra = []
         for k in call.keywords:
+            if k.arg not in params and kwname is not None and k.arg not in given:
+                extra.append(k)
+                continue
             if k.arg not in params or k.arg in given:
                 return None
             given[k.arg] = k.value
@@ -555,6 +583,8 @@ class Inliner(object):
                 mapping[p] = e
             else:
                 prelude.append(ast.copy_location(ast.Assign(targets=[ast.Name(id=p, ctx=ast.Store())], value=copy.deepcopy(e)), call))
+        if kwname is not None:
+            mapping['**' + kwname] = extra
         return mapping, prelude
 
     def expr_body(self, hnode):
@@ -692,7 +722,8 @@ class Inliner(object):
         ebody = self.expr_body(hnode)
         taken = {n.id for n in ast.walk(func.raw_node) if isinstance(n, ast.Name)} | set(mapping)
         for e_ in mapping.values():
-            taken |= {n.id for n in ast.walk(e_) if isinstance(n, ast.Name)}
+            for x_ in (e_ if isinstance(e_, list) else [e_]):
+                taken |= {n.id for n in ast.walk(x_) if isinstance(n, ast.Name)}
         if ebody is not None and not prelude:
             new_e = _Subst(mapping).visit(_fresh_comprehension_vars(copy.deepcopy(ebody), taken))
             return [self._replace(st, call, new_e)]
